@@ -15,6 +15,7 @@ package main
 // notification only: it is compared by the differential harness, not here.)
 
 import (
+	"encoding/json"
 	"fmt"
 	"sync"
 	"time"
@@ -166,5 +167,91 @@ func probeApprovals() (verdict []apRow, clean [][2]bool, err error) {
 		a.srv.CleanWriteApprovalCaches(ski)
 		clean = append(clean, [2]bool{same, !a.taken(m)})
 	}
+	return
+}
+
+// ---------- the connection removed INSIDE the processing of its own entity-removed notification
+
+type ewHandler struct {
+	l    *spine.DeviceLocal
+	once sync.Once
+	done chan struct{}
+}
+
+func (h *ewHandler) HandleEvent(p api.EventPayload) {
+	if p.EventType != api.EventTypeEntityChange || p.ChangeType != api.ElementChangeRemove {
+		return
+	}
+	h.once.Do(func() {
+		go func() {
+			h.l.RemoveRemoteDevice("skiT")
+			close(h.done)
+		}()
+		// condition-based, bounded: the device has left the map (the bus serialises Publish: a teardown that has
+		// something to publish waits for this handler to return — not the case in this probe)
+		for t0 := time.Now(); time.Since(t0) < 200*time.Millisecond; time.Sleep(100 * time.Microsecond) {
+			if h.l.RemoteDeviceForSki("skiT") == nil {
+				return
+			}
+		}
+	})
+}
+
+// probeEntityWindow: T holds one subscription and one binding from its entity [1]; while T's notification "entity [1]
+// removed" is processed, T's connection is removed at the EntityChange/Remove event (core-level handler). After both have
+// returned: is the subscription gone, is the binding gone, is the device gone, did the device leave the map inside the window?
+func probeEntityWindow() (subGone, bindGone, devGone, inside bool, err error) {
+	l, srv, _ := cuLocal()
+	rd, ok := l.SetupRemoteDevice("skiT", cuWriter{}).(*spine.DeviceRemote)
+	if !ok {
+		return false, false, false, false, fmt.Errorf("SetupRemoteDevice does not return a *DeviceRemote")
+	}
+	dd := cuTree("devT", [][]uint{{1}, {2}})
+	rd.UpdateDevice(dd.DeviceInformation.Description)
+	if _, err = rd.AddEntityAndFeatures(true, dd); err != nil {
+		return
+	}
+	ft := model.FeatureTypeTypeLoadControl
+	if err = l.SubscriptionManager().AddSubscription(rd, model.SubscriptionManagementRequestCallType{ClientAddress: cuFA("devT", []uint{1}, 1), ServerAddress: srv.Address(), ServerFeatureType: &ft}); err != nil {
+		return
+	}
+	if err = l.BindingManager().AddBinding(rd, model.BindingManagementRequestCallType{ClientAddress: cuFA("devT", []uint{1}, 1), ServerAddress: srv.Address(), ServerFeatureType: &ft}); err != nil {
+		return
+	}
+	h := &ewHandler{l: l, done: make(chan struct{})}
+	if err = spine.VerifSubscribeCore(h); err != nil {
+		return
+	}
+	defer func() { _ = spine.VerifUnsubscribeCore(h) }()
+	removed := model.NetworkManagementStateChangeTypeRemoved
+	et := model.EntityTypeTypeEVSE
+	nc := model.CmdClassifierTypeNotify
+	cmd := model.CmdType{Function: util.Ptr(model.FunctionTypeNodeManagementDetailedDiscoveryData), Filter: []model.FilterType{*model.NewFilterTypePartial()},
+		NodeManagementDetailedDiscoveryData: &model.NodeManagementDetailedDiscoveryDataType{
+			DeviceInformation: dd.DeviceInformation,
+			EntityInformation: []model.NodeManagementDetailedDiscoveryEntityInformationType{{Description: &model.NetworkManagementEntityDescriptionDataType{
+				EntityAddress: &model.EntityAddressType{Device: util.Ptr(model.AddressDeviceType("devT")), Entity: spine.NewAddressEntityType([]uint{1})}, EntityType: &et, LastStateChange: &removed}}}}}
+	b, e := json.Marshal(model.Datagram{Datagram: model.DatagramType{Header: model.HeaderType{AddressSource: cuFA("devT", []uint{0}, 0), AddressDestination: cuFA("HEMS", []uint{0}, 0),
+		MsgCounter: util.Ptr(model.MsgCounterType(77)), CmdClassifier: &nc}, Payload: model.PayloadType{Cmd: []model.CmdType{cmd}}}})
+	if e != nil {
+		return false, false, false, false, e
+	}
+	_, _ = rd.HandleSpineMesssage(b)
+	select {
+	case <-h.done:
+	case <-time.After(3 * time.Second):
+		// the event was not published (then the teardown follows), or the teardown is blocked
+		fired := false
+		h.once.Do(func() { fired = true })
+		if !fired {
+			return false, false, false, false, fmt.Errorf("RemoveRemoteDevice, started at the entity-removed event, did not return")
+		}
+		l.RemoveRemoteDevice("skiT")
+	}
+	subGone = len(l.SubscriptionManager().Subscriptions(rd)) == 0
+	bindGone = len(l.BindingManager().Bindings(rd)) == 0
+	devGone = l.RemoteDeviceForSki("skiT") == nil
+	// (whether the removal happened inside the window is not observable after the fact; the handler returned early iff it did)
+	inside = devGone
 	return
 }
